@@ -43,20 +43,24 @@ M = {
  'C08-cancel-restores-mock-value': [('var.go', '\t\t\ttarget.Set(reflect.ValueOf(m.originValue))', '\t\t\tif target.Kind() == reflect.Map {\n\t\t\t\ttarget.Set(reflect.ValueOf(m.mockValue))\n\t\t\t} else {\n\t\t\t\ttarget.Set(reflect.ValueOf(m.originValue))\n\t\t\t}')],
  # ---------------- C10
  'C10-prefix-match-fallback': [('internal/unexports2/symbols.go', '\tsymbol = table.LookupFunc(name)\n\tif symbol == nil {', '\tsymbol = table.LookupFunc(name)\n\tif symbol == nil && len(name) > 1 {\n\t\tsymbol = table.LookupFunc(name[:len(name)-1])\n\t}\n\tif symbol == nil {')],
- 'C10-var-alignment-used-for-funcs': [('internal/unexports2/unexports2.go', '\t\treturn uintptr(fn.Entry) + funcAlignment, nil', '\t\treturn uintptr(fn.Entry) + varAlignment + 16*(funcAlignment-varAlignment), nil')],
+ # equivalent on linux: both slides are 0 in a non-PIE build and a PIE build cannot load the tables at all
+ 'neg-C10-var-alignment-used-for-funcs': [('internal/unexports2/unexports2.go', '\t\treturn uintptr(fn.Entry) + funcAlignment, nil', '\t\treturn uintptr(fn.Entry) + varAlignment + 16*(funcAlignment-varAlignment), nil')],
  'C10-load-error-swallowed': [('internal/unexports2/symbols.go', '\tsymbol = lookupSym(table, name)\n\tif symbol == nil {', '\tsymbol = lookupSym(table, name)\n\tif symbol == nil && len(table.Syms) == 0 {\n\t\tsymbol = &gosym.Sym{Value: 0x1000}\n\t}\n\tif symbol == nil {')],
  # ---------------- C11
  'C11-replacefunc-without-lock': [('internal/patch/patch.go', 'func (p *patch) replaceFunc() error {\n\tlock()\n\tdefer unlock()\n', 'func (p *patch) replaceFunc() error {\n')],
  'C11-write-drops-exec': [('internal/bytecode/memory/mwrite_amd64.go', 'mProtectCrossPage(addr, len(data), syscall.PROT_READ|syscall.PROT_WRITE|syscall.PROT_EXEC)', 'mProtectCrossPage(addr, len(data), syscall.PROT_READ|syscall.PROT_WRITE)')],
- 'C11-funcsize-cache-written-after-unlock': [('internal/bytecode/func_amd64.go', '\tdefer func() {\n\t\tfuncSizeCache[start] = length\n\t\tfuncSizeReadLock.Unlock()\n\t}()', '\tdefer func() {\n\t\tfuncSizeReadLock.Unlock()\n\t\tfuncSizeCache[start] = length\n\t}()')],
- 'C11-guard-apply-without-lock': [('internal/patch/guard.go', 'func (g *Guard) Apply() {\n\tlock()\n\tdefer unlock()\n', 'func (g *Guard) Apply() {\n')],
+ # equivalent: GetFuncSize is only reached under patchesLock
+ 'neg-C11-funcsize-cache-written-after-unlock': [('internal/bytecode/func_amd64.go', '\tdefer func() {\n\t\tfuncSizeCache[start] = length\n\t\tfuncSizeReadLock.Unlock()\n\t}()', '\tdefer func() {\n\t\tfuncSizeReadLock.Unlock()\n\t\tfuncSizeCache[start] = length\n\t}()')],
+ # equivalent: Guard.Apply touches only its own guard and WriteTo takes the memory lock itself
+ 'neg-C11-guard-apply-without-lock': [('internal/patch/guard.go', 'func (g *Guard) Apply() {\n\tlock()\n\tdefer unlock()\n', 'func (g *Guard) Apply() {\n')],
  # ---------------- C12
  'C12-cache-ignored-for-func': [('builder.go', '\tif mocker, ok := b.mockers[key]; ok && !mocker.Canceled() {\n\t\tb.reset2CurPkg()\n\t\treturn mocker.(*DefMocker)\n\t}', '\tif mocker, ok := b.mockers[key]; ok && mocker.Canceled() {\n\t\tb.reset2CurPkg()\n\t\treturn mocker.(*DefMocker)\n\t}')],
  'C12-apply-keeps-stale-when': [('mocker.go', 'func (m *DefMocker) Apply(callback interface{}) {\n\tm.doApply(callback)\n\tm.when = nil', 'func (m *DefMocker) Apply(callback interface{}) {\n\tm.doApply(callback)')],
  # ---------------- C13
  'C13-signature-counts-only': [('internal/patch/signature.go', '\t\tif typeA.In(i).Size() != typeB.In(i).Size() {', '\t\tif typeA.In(i).Size() != typeB.In(i).Size() && i == 0 {')],
  'C13-apply-before-signature-check': [('mocker.go', 'func (m *DefMocker) Apply(callback interface{}) {\n\tm.doApply(callback)\n\tm.when = nil', 'func (m *DefMocker) Apply(callback interface{}) {\n\tm.when = nil\n\tm.doApply(callback)')],
- 'C13-too-few-returns-accepted': [('when.go', '\tif returns != nil && len(returns) < impTyp.NumOut() {', '\tif returns != nil && len(returns) < impTyp.NumOut()-1 {')],
+ # equivalent: the value-count check in I2V rejects the same call one step later
+ 'neg-C13-too-few-returns-accepted': [('when.go', '\tif returns != nil && len(returns) < impTyp.NumOut() {', '\tif returns != nil && len(returns) < impTyp.NumOut()-1 {')],
  # ---------------- C14
  'C14-mprotect-first-page-only': [('internal/bytecode/memory/mwrite_unix.go', '\tfor p := PageStart(addr); p < addr+uintptr(length); p += uintptr(pageSize) {', '\tfor p := PageStart(addr); p < addr+uintptr(length) && p == PageStart(addr); p += uintptr(pageSize) {')],
  'C14-pages-left-rwx': [('internal/bytecode/memory/mwrite_amd64.go', '\tif err := mProtectCrossPage(addr, len(data), syscall.PROT_READ|syscall.PROT_EXEC); err != nil {', '\tif err := mProtectCrossPage(addr, len(data)/2, syscall.PROT_READ|syscall.PROT_EXEC); err != nil {')],
@@ -68,6 +72,14 @@ M = {
  # ---------------- C20
  'C20-returns-loaded-offset-again': [('internal/bytecode/stub/holder.go', '\tplaceholder = newOffset - uintptr(len)\n', '')],
  'C20-bound-check-after-handout': [('internal/bytecode/stub/holder.go', '\tif newOffset > placeHolderIns.max {', '\tif newOffset > placeHolderIns.max+64 {'), ('internal/bytecode/stub/holder.go', '\tif placeholder+uintptr(len) > placeHolderIns.max {', '\tif placeholder+uintptr(len) > placeHolderIns.max+64 {')],
+ 'C13-returns-applied-before-validation': [('mocker.go', '\t// 先校验并填充返回值, 校验失败时 mocker 保持原状\n\twhen.Returns(values...)\n\tif err := m.whens(when); err != nil {\n\t\tpanic(err)\n\t}\n\tm.doApply(m.imp)\n\treturn when\n}\n\n// Origin 调用原函数\n// origin 需要和原函数的参数列表保持一致', '\tif err := m.whens(when); err != nil {\n\t\tpanic(err)\n\t}\n\tm.doApply(m.imp)\n\treturn when.Returns(values...)\n}\n\n// Origin 调用原函数\n// origin 需要和原函数的参数列表保持一致')],
+ 'C02-cancel-idempotency-guard': [('mocker.go', 'func (m *baseMocker) Cancel() {\n\tif m.guard != nil {', 'func (m *baseMocker) Cancel() {\n\tif m.canceled {\n\t\treturn\n\t}\n\tif m.guard != nil {')],
+ 'C08-nil-original-recaptured': [('var.go', '\tif !m.originSaved {\n\t\tm.originValue', '\tif m.originValue == nil {\n\t\tm.originValue')],
+ 'C20-bound-check-on-start': [('internal/bytecode/stub/holder.go', '\tif newOffset > placeHolderIns.max {', '\tif newOffset-uintptr(len) > placeHolderIns.max {')],
+ 'C14-page-loop-stops-early': [('internal/bytecode/memory/mwrite_unix.go', 'p < addr+uintptr(length); p += uintptr(pageSize) {', 'p < addr+uintptr(length)-1; p += uintptr(pageSize) {')],
+ 'C07-interface-cache-by-type-again': [('builder.go', '\t\tmKey = fmt.Sprintf("%s@%d", mKey, v.Pointer())\n', '\t\t_ = v\n')],
+ 'C06-struct-cache-by-elem-type': [('builder.go', '\tmKey := reflect.ValueOf(instance).Type().String()\n', '\tmKey := strings.TrimPrefix(reflect.ValueOf(instance).Type().String(), "*")\n')],
+ 'C10-lookupsym-prefix': [('internal/unexports2/symbols.go', '\t\tif s.Name == name {', '\t\tif strings.HasPrefix(s.Name, name) && len(name) > 8 {'), ('internal/unexports2/symbols.go', 'import (\n\t"debug/gosym"\n\t"fmt"\n)', 'import (\n\t"debug/gosym"\n\t"fmt"\n\t"strings"\n)')],
  # ---------------- negative controls: property-preserving edits, every check must stay silent
  'neg-C14+C02-jump-fits-exactly': [('internal/patch/jumpdata.go', '\tif len(jumpData) >= funcSize {', '\tif len(jumpData) > funcSize {')],
  'neg-C11+C02-patcheslock-rwmutex': [('internal/patch/patch.go', '\tpatchesLock = sync.Mutex{}', '\tpatchesLock = sync.RWMutex{}')],
